@@ -209,7 +209,7 @@ func (c *cloner) thread(t *Thread) *Thread {
 	if n, ok := c.threads[t]; ok {
 		return n
 	}
-	n := &Thread{id: t.id, done: t.done, parked: t.parked, resumed: t.resumed, justResumed: t.justResumed, panicking: t.panicking,
+	n := &Thread{id: t.id, done: t.done, parked: t.parked, resumed: t.resumed, justResumed: t.justResumed, yield: t.yield, panicking: t.panicking,
 		panicMsg: t.panicMsg, vc: t.vc.clone(), name: t.name, selIdx: t.selIdx}
 	c.threads[t] = n
 	for _, f := range t.frames {
